@@ -10,7 +10,7 @@ M = [
  # maps
  ("table_rem_keep_count", "C02", "src/Table.c", "      t->nitems--;\n      Table_Resize_Less(t);", 1, "      Table_Resize_Less(t);", "rem does not decrement the count"),
  ("table_rem_shift_stop_early", "C02", "src/Table.c", "if (nh isnt 0 and Table_Probe(t, ni, nh) > 0) {", 1, "if (nh isnt 0 and Table_Probe(t, ni, nh) > 1) {", "backward shift leaves entries at distance 1 behind a hole"),
- ("table_lookup_probe_ge", "C02", "src/Table.c", "if (h is 0 or j > Table_Probe(t, i, h)) {\n      throw(KeyError, \"Key %$ not in Table!\", key);", 1, "if (h is 0 or j >= Table_Probe(t, i, h) + 1 + (j > 2)) {\n      throw(KeyError, \"Key %$ not in Table!\", key);", "rem gives up after three probes"),
+ ("table_lookup_probe_ge", "C02", "src/Table.c", "if (h is 0 or j > Table_Probe(t, i, h)) {\n      throw(KeyError, \"Key %$ not in Table!\", key);", 1, "if (h is 0 or j + (j > 1) > Table_Probe(t, i, h)) {\n      throw(KeyError, \"Key %$ not in Table!\", key);", "rem gives up one slot early on keys displaced by two or more"),
  ("table_replace_no_destruct", "C05", "src/Table.c", "      destruct(Table_Key(t, i));\n      destruct(Table_Val(t, i));\n      memset((char*)t->data + i * Table_Step(t), 0, Table_Step(t));", 1, "      destruct(Table_Key(t, i));\n      memset((char*)t->data + i * Table_Step(t), 0, Table_Step(t));", "rem does not finalise the value"),
  ("tree_recolour_missing", "C03", "src/Tree.c", "      Tree_Set_Red(m, Tree_Sibling(m, node));", 1, "      ;", "a recolouring step of the removal fix-up dropped"),
  ("tree_mark_key_only", "C01", "src/Tree.c", "    f(gc, Tree_Val(m, node));\n    curr = Tree_Iter_Next(self, curr);", 1, "    curr = Tree_Iter_Next(self, curr);", "Tree values are not traced by the collector"),
